@@ -129,6 +129,20 @@ CHECKS = [
         "note": "Bounded depth and parameter lattice; round-off tolerances derived from operand magnitudes. Trusted: the reference model.",
     },
     {
+        "property_id": "C10",
+        "category": "exploration",
+        "technique": "bounded-exhaustive enumeration of (equation class, parameters, grid, BC assignment) and of a grammar of expression PDEs; routes compared on the complete degree-3 determining set of states",
+        "text": "Every (predefined class x 3 asymmetric parameter sets x 6 grid families x single and operator-specific BC assignments "
+        "incl. same-value-different-class and time-dependent pairs) and every program of a grammar of expression right-hand sides "
+        "(19 terms alone and in pairs, two-field programs, bc_ops, constants, field constants, user functions) is evaluated through "
+        "evolution_rate, make_pde_rhs on numpy and numba, the generic PDE built from the class's own expression text, and an "
+        "independent reference assembled from field.laplace/gradient_squared, at t in {0, 1.3}, on the COMPLETE determining set for "
+        "polynomial maps of degree <= 3 (all states with support <= 3 and entries in 0..3; up to 1789 states) plus generic states - "
+        "routes that agree there compute the same polynomial map.  Really compiled rates are compared on a covering subset.",
+        "note": "Expression route compared only where the text determines the BC wiring (rule per class in the module docstring); "
+        "non-polynomial user terms are compared on the same points without the determining-set argument. " + _MODES,
+    },
+    {
         "property_id": "C12",
         "category": "exploration",
         "technique": "bounded-exhaustive enumeration of grid configurations x full point lattices against closed-form geometry",
